@@ -83,16 +83,21 @@ def runC01b (j : Json) : R Json := do
   let A := src.concat
   let res ← qs.mapM fun q => do
     let l ← asArr q
-    match l with
-    | [ji, jc] =>
-      let item ← asItem ji
-      let cols ← asColSel jc
-      let m := match rd with
-        | some r => jOutcome (getItemB r item cols)
-        | none => Json.null
-      let sp := (npRows A item).map fun rows => rows.map (selCols cols)
-      pure (Json.mkObj [("model", m), ("spec", jOpt jMat sp)])
-    | _ => .error "items: [[item, cols], ...]"
+    -- [item, cols] or [item, cols, [c1, c2, ...]]: the index applied to the derived reader reader[:, c1][:, c2]...
+    let (ji, jc, pre) ← match l with
+      | [ji, jc] => pure (ji, jc, ([] : List ColSel))
+      | [ji, jc, jp] => do
+        let pre ← asList asColSel jp
+        pure (ji, jc, pre)
+      | _ => .error "items: [[item, cols] | [item, cols, [pre...]], ...]"
+    let item ← asItem ji
+    let cols ← asColSel jc
+    let ops := pre ++ [cols]
+    let m := match rd with
+      | some r => jOutcome (if pre.isEmpty then getItemB r item cols else getItemOps r item ops)
+      | none => Json.null
+    let sp := (npRows A item).map fun rows => rows.map (applyCols ops)
+    pure (Json.mkObj [("model", m), ("spec", jOpt jMat sp)])
   let attrs := match rd with
     | none => Json.null
     | some r => Json.mkObj [("backend", jBackend r.backend), ("n_samples", jOpt jNat r.nSamples),
@@ -107,39 +112,6 @@ def runC01b (j : Json) : R Json := do
 def runC01 (op : String) (j : Json) : R Json := do
   match op with
   | "reader" => runC01b j
-  | "getitem" =>
-    let lens ← getNats j "parts"; let nch ← getNat j "nch"
-    let item ← fld j "item" >>= asItem
-    let cols ← match j.getObjVal? "cols" with
-      | .ok v => asColSel v
-      | .error _ => pure ColSel.all
-    let parts := mkParts lens nch
-    let m := getItem parts item cols
-    let sp := (npRows parts.flatten item).map fun rows => rows.map (selCols cols)
-    pure (Json.mkObj [("model", jOpt jMat m), ("spec", jOpt jMat sp),
-                      ("n_samples", jOpt jNat (bounds parts).getLast?),
-                      ("part_bounds", jNats (bounds parts))])
-  | "getitems" =>
-    let lens ← getNats j "parts"; let nch ← getNat j "nch"
-    let parts := mkParts lens nch
-    let qs ← fld j "items" >>= asArr
-    let res ← qs.mapM fun q => do
-      let l ← asArr q
-      match l with
-      | [ji, jc] =>
-        let item ← asItem ji
-        let cols ← asColSel jc
-        let m := getItem parts item cols
-        let sp := (npRows parts.flatten item).map fun rows => rows.map (selCols cols)
-        pure (Json.mkObj [("model", jOpt jMat m), ("spec", jOpt jMat sp)])
-      | _ => .error "items: [[item, cols], ...]"
-    pure (Json.mkObj [("res", Json.arr res.toArray),
-                      ("n_samples", jOpt jNat (bounds parts).getLast?),
-                      ("part_bounds", jNats (bounds parts))])
-  | "memmap_rows" =>
-    let fs ← getNat j "fsize"; let off ← getNat j "offset"; let isz ← getNat j "itemsize"
-    let nch ← getNat j "nch"
-    pure (Json.mkObj [("model", jNat (memmapRows fs off isz nch))])
   | _ => .error s!"C01: unknown op {op}"
 
 end PhyVerif.Driver
